@@ -396,6 +396,7 @@ class Sched:
         self.budgets = [None] * len(bodies)
         self.steps = [0] * len(bodies)
         self.where = [None] * len(bodies)
+        self.trail = [[] for _ in bodies]          # function name of every counted step
 
     def tracer(self, t):
         def tr(frame, ev, arg):
@@ -404,6 +405,7 @@ class Sched:
                 return None if not code.co_filename.startswith(REPO_SIG) else tr
             if ev == 'line' and code.co_name not in SKIP_FUNCS and not is_hook_line(code.co_filename, frame.f_lineno):
                 self.steps[t] += 1
+                self.trail[t].append(code.co_name)
                 b = self.budgets[t]
                 if b is not None:
                     if b == 0:
@@ -455,6 +457,17 @@ def count_steps(scenario, call):
     s = Sched([sc['calls'][call]], [(0, None)], Recorder())
     s.run()
     return s.steps[0]
+
+
+def window_parks(scenario, call, limit=10):
+    """step counts at which a thread running this call alone stands INSIDE the cleanup window's __enter__ / __exit__ (something is taken away)"""
+    sc = build(scenario)
+    s = Sched([sc['calls'][call]], [(0, None)], Recorder())
+    s.run()
+    at = [i for i, name in enumerate(s.trail[0]) if name in ('__enter__', '__exit__')]
+    if len(at) > limit:
+        at = [at[(j * len(at)) // limit] for j in range(limit)]
+    return at
 
 
 def sched_run(tid, scenario, calls, schedule):
@@ -617,7 +630,7 @@ def sched_gen(seed, n1, n2, sweep_all=False):
                                 yield sched_run('sweep/%s-%s-%d' % (scen, '+'.join(calls), k), scen, calls, [(a, park), (b, n), (a, None), (b, None)])
                             k += 1
                     # and the other way round: a is stopped at EVERY step, then b runs part-way (and stays there while a goes on)
-                    for park in sorted({steps[b] // 4, steps[b] // 2, (3 * steps[b]) // 4}):
+                    for park in sorted({steps[b] // 4, steps[b] // 2, (3 * steps[b]) // 4} | set(window_parks(scen, calls[b]))):
                         for n in range(steps[a] + 1):
                             if k % nshards == shard:
                                 yield sched_run('sweep2/%s-%s-%d' % (scen, '+'.join(calls), k), scen, calls, [(a, n), (b, park), (a, None), (b, None)])
